@@ -90,7 +90,9 @@ KEEP_FUNCS = {"check_series", "check_y", "check_X", "np.asarray", "np.asanyarray
               "pd.DataFrame", "np.transpose"}
 # functions whose result holds / yields the ELEMENTS of their arguments: the result is treated as
 # (a view of) the one tracked argument (several different tracked arguments are not understood)
-ELEMENT_FUNCS = {"enumerate", "zip", "list", "tuple", "sorted", "reversed", "iter", "set", "dict"}
+ELEMENT_FUNCS = {"enumerate", "zip", "list", "tuple", "sorted", "reversed", "iter", "set", "dict",
+                 "next", "itertools.chain", "itertools.islice", "itertools.zip_longest",
+                 "itertools.product", "itertools.repeat", "itertools.compress"}
 # external functions: no write through an argument, result is a new object
 EXT_PURE = {
     "int", "float", "bool", "str", "len", "range", "isinstance", "abs", "min", "max", "sum", "type",
@@ -102,6 +104,7 @@ EXT_PURE = {
     "warnings.warn", "acf", "pacf",
     "operator.sub", "operator.add", "operator.mul", "operator.truediv", "np.subtract", "np.add",
     "np.multiply", "np.divide", "np.true_divide", "math.floor", "math.ceil", "np.isinf",
+    "itertools.count",
 }
 # attributes of self that hold a user-supplied callable (called like a function: no write through
 # its arguments is assumed)
@@ -125,36 +128,134 @@ def _dotted(n):
 
 
 class Frame:
-    def __init__(self, label, depth):
+    def __init__(self, label, depth, ctx, parent=None):
         self.label = label
         self.names = {}
         self.depth = depth
+        self.ctx = ctx          # the module the code of this frame lives in
+        self.parent = parent    # enclosing frame of a local function (closure): read access
         self.retvar = None
         self.funcvals = {}      # local name -> set of dotted external functions it may hold
         self.selfnames = {}     # local name -> attribute of self it was bound to
+        self.localfuncs = {}    # local function name -> FunctionDef (nested def)
+
+    def get(self, name):
+        """variable a name refers to here: own locals, then the enclosing frames (closure)"""
+        f = self
+        while f is not None:
+            if name in f.names:
+                return f.names[name]
+            f = f.parent
+        return None
+
+    def has(self, name):
+        return self.get(name) is not None or self.localfunc(name) is not None
+
+    def localfunc(self, name):
+        f = self
+        while f is not None:
+            if name in f.localfuncs:
+                return f.localfuncs[name], f
+            if name in f.names:
+                return None
+            f = f.parent
+        return None
 
 
-class MethodTranslator:
-    def __init__(self, rel, mod, cls, fn, self_ok):
-        self.rel, self.mod, self.cls, self.fn, self.self_ok = rel, mod, cls, fn, self_ok
-        self.vars = []          # variable labels
-        self.conds = []         # (source, ast node or None, in top frame)
-        self.fns = []           # source of each allocation / write
-        self.cnts = []          # source of each loop
-        self.ninline = 0
+class ModCtx:
+    """what a module defines / imports (helpers are followed wherever they live)"""
+    _cache = {}
+
+    def __init__(self, repo, rel):
+        self.repo, self.rel = repo, rel
+        with open(os.path.join(repo, rel)) as f:
+            self.mod = ast.parse(f.read())
+        mod = self.mod
         self.classes = {c.name: c for c in mod.body if isinstance(c, ast.ClassDef)}
         self.module_funcs = {f.name: f for f in mod.body if isinstance(f, ast.FunctionDef)}
         self.module_names = set()
+        self.imports = {}       # local name -> (absolute dotted module, original name)
+        pkg = os.path.dirname(rel).replace(os.sep, ".")
         for n in mod.body:
             if isinstance(n, (ast.Import, ast.ImportFrom)):
                 for a in n.names:
                     self.module_names.add((a.asname or a.name).split(".")[0])
+                if isinstance(n, ast.ImportFrom):
+                    base = n.module or ""
+                    if n.level:
+                        up = pkg.split(".")[:len(pkg.split(".")) - (n.level - 1)]
+                        base = ".".join(up + ([base] if base else []))
+                    for a in n.names:
+                        self.imports[a.asname or a.name] = (base, a.name)
             elif isinstance(n, (ast.ClassDef, ast.FunctionDef)):
                 self.module_names.add(n.name)
             elif isinstance(n, ast.Assign):
                 for t in n.targets:
                     if isinstance(t, ast.Name):
                         self.module_names.add(t.id)
+
+    @classmethod
+    def load(cls, repo, rel):
+        key = (repo, rel)
+        if key not in cls._cache:
+            cls._cache[key] = cls(repo, rel)
+        return cls._cache[key]
+
+    @classmethod
+    def of_module(cls, repo, dotted):
+        """the module file of an absolute dotted sktime module name (None outside the repo)"""
+        if not dotted.startswith("sktime"):
+            return None
+        base = os.path.join(*dotted.split("."))
+        for rel in (base + ".py", os.path.join(base, "__init__.py")):
+            if os.path.exists(os.path.join(repo, rel)):
+                return cls.load(repo, rel)
+        return None
+
+    def resolve(self, name, depth=0):
+        """(kind, node, ctx) of a module-level name: a def / class here, or followed through
+        `from sktime... import name` (package re-exports included)"""
+        if name in self.module_funcs:
+            return "func", self.module_funcs[name], self
+        if name in self.classes:
+            return "class", self.classes[name], self
+        if name in self.imports and depth < 4:
+            modname, orig = self.imports[name]
+            other = ModCtx.of_module(self.repo, modname)
+            if other is not None:
+                return other.resolve(orig, depth + 1)
+        return None, None, None
+
+
+class MethodTranslator:
+    def __init__(self, rel, mod, cls, fn, self_ok, repo=None):
+        self.rel, self.mod, self.cls, self.fn, self.self_ok = rel, mod, cls, fn, self_ok
+        self.vars = []          # variable labels
+        self.conds = []         # (source, ast node or None, in top frame)
+        self.fns = []           # source of each allocation / write
+        self.cnts = []          # source of each loop
+        self.ninline = 0
+        if repo is not None:
+            self.ctx = ModCtx.load(repo, rel)
+        else:                   # a bare module (unit tests): nothing to follow outside it
+            self.ctx = ModCtx.__new__(ModCtx)
+            self.ctx.repo, self.ctx.rel, self.ctx.mod = None, rel, mod
+            self.ctx.classes = {c.name: c for c in mod.body if isinstance(c, ast.ClassDef)}
+            self.ctx.module_funcs = {f.name: f for f in mod.body
+                                     if isinstance(f, ast.FunctionDef)}
+            self.ctx.imports = {}
+            self.ctx.module_names = set()
+            for n in mod.body:
+                if isinstance(n, (ast.Import, ast.ImportFrom)):
+                    for a in n.names:
+                        self.ctx.module_names.add((a.asname or a.name).split(".")[0])
+                elif isinstance(n, (ast.ClassDef, ast.FunctionDef)):
+                    self.ctx.module_names.add(n.name)
+                elif isinstance(n, ast.Assign):
+                    for t in n.targets:
+                        if isinstance(t, ast.Name):
+                            self.ctx.module_names.add(t.id)
+        self.stack = []         # functions being inlined (recursion is not followed)
 
     def bad(self, node, why):
         raise Unsupported("%s:%s.%s line %s: %s: `%s`" % (
@@ -169,6 +270,7 @@ class MethodTranslator:
         return v
 
     def var(self, fr, name):
+        # an assignment binds in the frame itself (a closure cannot rebind outer names)
         return fr.names[name] if name in fr.names else self.newvar(fr, name)
 
     def fn_(self, src):
@@ -239,24 +341,48 @@ class MethodTranslator:
         self.bad(node, "binding a value that may be one of several objects")
 
     # ---- method / function resolution
-    def find_method(self, name):
-        todo, seen = [self.cls], set()
+    def class_chain(self, cls, ctx):
+        """the class and its base classes (breadth first), each with its module"""
+        todo, seen, out = [(cls, ctx)], set(), []
         while todo:
-            c = todo.pop(0)
-            if c.name in seen:
+            c, cx = todo.pop(0)
+            if (cx.rel, c.name) in seen:
                 continue
-            seen.add(c.name)
+            seen.add((cx.rel, c.name))
+            out.append((c, cx))
+            for b in c.bases:
+                if isinstance(b, ast.Name):
+                    kind, node, bx = cx.resolve(b.id) if cx.repo else (
+                        ("class", cx.classes[b.id], cx) if b.id in cx.classes else (None,) * 3)
+                    if kind == "class":
+                        todo.append((node, bx))
+        return out
+
+    def find_method(self, name, cls=None, ctx=None):
+        """(FunctionDef, module) of a method, looked up through the class and its bases, wherever
+        they live in the package"""
+        for c, cx in self.class_chain(cls or self.cls, ctx or self.ctx):
             for n in c.body:
                 if isinstance(n, ast.FunctionDef) and n.name == name:
-                    return n
-            for b in c.bases:
-                if isinstance(b, ast.Name) and b.id in self.classes:
-                    todo.append(self.classes[b.id])
-        return None
+                    return n, cx
+        return None, None
 
-    def inline(self, callee, call, fr, skip_self):
-        if fr.depth + 1 > MAX_INLINE_DEPTH:
-            self.bad(call, "inlining too deep (recursion?)")
+    @staticmethod
+    def decorators(fn):
+        return {_dotted(d) if not isinstance(d, ast.Call) else _dotted(d.func)
+                for d in fn.decorator_list}
+
+    def inline(self, callee, call, fr, skip_self, ctx=None, closure_of=None):
+        """inline a call: the callee's parameters become variables bound to what is passed.
+        `ctx`: the module the callee lives in; `closure_of`: the frame a local function was
+        defined in (its body reads that frame's variables)"""
+        if fr.depth + 1 > MAX_INLINE_DEPTH or callee in self.stack:
+            self.bad(call, "inlining too deep / recursive")
+        decos = self.decorators(callee) - {None}
+        if decos - {"staticmethod"}:
+            self.bad(call, "callee %s is decorated (%s)" % (callee.name, sorted(decos)))
+        if "staticmethod" in decos:
+            skip_self = False
         a = callee.args
         if a.vararg or a.kwarg or a.posonlyargs or a.kwonlyargs:
             self.bad(call, "callee %s has *args/**kwargs/keyword-only parameters" % callee.name)
@@ -267,7 +393,8 @@ class MethodTranslator:
             params = params[1:]
         defaults = dict(zip([p.arg for p in a.args][len(a.args) - len(a.defaults):], a.defaults))
         self.ninline += 1
-        nf = Frame("%s#%d" % (callee.name, self.ninline), fr.depth + 1)
+        nf = Frame("%s#%d" % (callee.name, self.ninline), fr.depth + 1,
+                   ctx or (closure_of.ctx if closure_of else fr.ctx), parent=closure_of)
         given = {}
         if len(call.args) > len(params):
             self.bad(call, "too many positional arguments")
@@ -290,8 +417,34 @@ class MethodTranslator:
             else:
                 self.bad(call, "missing argument %s" % p)
         nf.retvar = self.newvar(nf, "<return>")
-        pre += self.block(callee.body, nf, "func")
+        self.stack.append(callee)
+        try:
+            pre += self.block(callee.body, nf, "func")
+        finally:
+            self.stack.pop()
         return pre, ("alias", nf.retvar)
+
+    def func_as_value(self, fn, defining, node):
+        """a local function handed on as a value (e.g. to `.apply`): like a lambda, its body may
+        run zero or more times, on arguments that are new values"""
+        a = fn.args
+        if a.vararg or a.kwarg or a.kwonlyargs or a.posonlyargs or fn.decorator_list \
+                or fn in self.stack:
+            self.bad(node, "local function used as a value: signature not understood")
+        self.ninline += 1
+        nf = Frame("%s#%d" % (fn.name, self.ninline), defining.depth + 1, defining.ctx,
+                   parent=defining)
+        pre = []
+        for p in a.args:
+            x = self.newvar(nf, p.arg)
+            pre.append(("fresh", x, self.fn_("argument %s of %s" % (p.arg, fn.name))))
+        nf.retvar = self.newvar(nf, "<return>")
+        self.stack.append(fn)
+        try:
+            body = self.block(fn.body, nf, "func")
+        finally:
+            self.stack.pop()
+        return self.maybe(pre + body, "body of the local function " + fn.name)
 
     # ---- expressions: (statements for the side effects, kind of the value)
     def ev_all(self, exprs, fr):
@@ -309,15 +462,18 @@ class MethodTranslator:
         if isinstance(e, ast.Name):
             if e.id == "self":
                 return [], ("self",)
-            if e.id in fr.names:
-                return [], ("alias", fr.names[e.id])
-            if e.id in self.module_names or e.id in EXT_PURE or e.id in ELEMENT_FUNCS or e.id in (
+            if fr.get(e.id) is not None:
+                return [], ("alias", fr.get(e.id))
+            lf = fr.localfunc(e.id)
+            if lf is not None:
+                return self.func_as_value(lf[0], lf[1], e), F
+            if e.id in fr.ctx.module_names or e.id in EXT_PURE or e.id in ELEMENT_FUNCS or e.id in (
                     "True", "False", "None", "ValueError", "TypeError", "NotImplementedError"):
                 return [], F
             self.bad(e, "name of unknown origin")
         if isinstance(e, ast.Attribute):
             d = _dotted(e)
-            if d and d.split(".")[0] in self.module_names and d.split(".")[0] not in fr.names:
+            if d and d.split(".")[0] in fr.ctx.module_names and not fr.has(d.split(".")[0]):
                 return [], F                       # np.nan, pd.DataFrame, ...
             pre, k = self.ev(e.value, fr)
             if isinstance(e.value, ast.Name) and e.value.id == "self":
@@ -416,14 +572,20 @@ class MethodTranslator:
             return self.ev_call(e, fr)
         self.bad(e, "expression form not understood")
 
-    def ev_args(self, call, fr):
+    def ev_args(self, call, fr, star_ok=False):
+        """kinds of the arguments; `*xs` (for functions that are not inlined) counts as its
+        elements = (a view of) xs"""
+        args = []
         for a in call.args:
             if isinstance(a, ast.Starred):
-                self.bad(call, "starred argument")
+                if not star_ok:
+                    self.bad(call, "starred argument")
+                a = a.value
+            args.append(a)
         for k in call.keywords:
             if k.arg is None:
                 self.bad(call, "**kwargs argument")
-        return self.ev_all(list(call.args) + [k.value for k in call.keywords], fr)
+        return self.ev_all(args + [k.value for k in call.keywords], fr)
 
     def ev_call(self, c, fr):
         F = ("fresh",)
@@ -431,7 +593,7 @@ class MethodTranslator:
         d = _dotted(f)
         root = d.split(".")[0] if d else None
         # ---- getattr(obj, "name"[, default]) == obj.name
-        if d == "getattr" and "getattr" not in fr.names and len(c.args) in (2, 3) \
+        if d == "getattr" and not fr.has("getattr") and len(c.args) in (2, 3) \
                 and not c.keywords:
             pre, kinds = self.ev_all(c.args, fr)
             ko = kinds[0]
@@ -440,20 +602,41 @@ class MethodTranslator:
             if ko[0] != "fresh":
                 return pre, ko          # conservatively: (a part of) the object itself
             return pre, F
-        # ---- plain function / external dotted function
-        if d and root != "self" and root not in fr.names:
-            if isinstance(f, ast.Name) and f.id in self.module_funcs:
-                return self.inline(self.module_funcs[f.id], c, fr, False)
-            pre, kinds = self.ev_args(c, fr)
-            if d in KEEP_FUNCS:
-                if not c.args:
-                    self.bad(c, "KEEP function without positional argument")
-                return pre, kinds[0]
-            if d in ELEMENT_FUNCS:
-                return pre, self.oneof(kinds + [F])
-            if d in EXT_PURE:
+        # ---- a local function (nested def): inlined, its body reads the defining frame
+        if isinstance(f, ast.Name) and fr.get(f.id) is None and fr.localfunc(f.id) is not None:
+            lfn, defining = fr.localfunc(f.id)
+            return self.inline(lfn, c, fr, False, closure_of=defining)
+        # ---- plain function / external dotted function / Class.helper
+        if d and root != "self" and not fr.has(root):
+            ctx = fr.ctx
+            if d in KEEP_FUNCS or d in ELEMENT_FUNCS or d in EXT_PURE:
+                pre, kinds = self.ev_args(c, fr, star_ok=True)
+                if d in KEEP_FUNCS:
+                    if not c.args:
+                        self.bad(c, "KEEP function without positional argument")
+                    return pre, kinds[0]
+                if d in ELEMENT_FUNCS:
+                    return pre, self.oneof(kinds + [F])
                 return pre, F
-            if isinstance(f, ast.Name) and f.id[:1].isupper() and f.id in self.module_names:
+            if isinstance(f, ast.Name):
+                # a function of this module, or one imported from another module of the package
+                kind, node, cx = ctx.resolve(f.id) if ctx.repo else (
+                    ("func", ctx.module_funcs[f.id], ctx) if f.id in ctx.module_funcs
+                    else (None, None, None))
+                if kind == "func":
+                    return self.inline(node, c, fr, False, ctx=cx)
+            if isinstance(f, ast.Attribute) and isinstance(f.value, ast.Name):
+                # Class.helper(..): a static helper of the class or of one of its bases
+                kind, node, cx = ctx.resolve(f.value.id) if ctx.repo else (
+                    ("class", ctx.classes[f.value.id], ctx) if f.value.id in ctx.classes
+                    else (None, None, None))
+                if kind == "class":
+                    callee, mx = self.find_method(f.attr, node, cx)
+                    if callee is not None and "staticmethod" in self.decorators(callee):
+                        return self.inline(callee, c, fr, False, ctx=mx)
+                    self.bad(c, "call through a class that is not a static helper")
+            pre, kinds = self.ev_args(c, fr, star_ok=True)
+            if isinstance(f, ast.Name) and f.id[:1].isupper() and f.id in ctx.module_names:
                 # constructor of an imported class: the new object may keep (a view of) what it
                 # is handed - treated as a view of its tracked arguments
                 return pre, self.oneof(kinds + [F])
@@ -470,9 +653,9 @@ class MethodTranslator:
         m = f.attr
         # ---- method of self
         if isinstance(f.value, ast.Name) and f.value.id == "self":
-            callee = self.find_method(m)
-            if callee is not None:
-                return self.inline(callee, c, fr, True)
+            callee, mx = self.find_method(m)
+            if callee is not None and m not in SELF_PURE_INHERITED:
+                return self.inline(callee, c, fr, True, ctx=mx)
             pre, _ = self.ev_args(c, fr)
             if m in SELF_PURE_INHERITED or m in SELF_CALLABLE_ATTRS:
                 return pre, F
@@ -540,6 +723,14 @@ class MethodTranslator:
             if isinstance(s, ast.Expr) and isinstance(s.value, ast.Constant):
                 continue                                   # docstring
             if isinstance(s, ast.Pass):
+                continue
+            if isinstance(s, ast.FunctionDef):
+                # a local function: nothing happens here; calls of it are inlined where they
+                # are made (its free names are the variables of THIS frame)
+                if any(isinstance(n, (ast.Nonlocal, ast.Global)) for n in ast.walk(s)):
+                    self.bad(s, "local function with nonlocal / global")
+                fr.names.pop(s.name, None)
+                fr.localfuncs[s.name] = s
                 continue
             if isinstance(s, ast.Raise):
                 if tail == "func":
@@ -646,16 +837,16 @@ class MethodTranslator:
         if isinstance(t, (ast.Tuple, ast.List)):
             out = []
             for x in t.elts:
-                if isinstance(x, ast.Starred):
-                    self.bad(t, "starred target")
-                out += self.bind_target(fr, x, kind, node)
+                # `*rest` collects elements of the same object
+                out += self.bind_target(fr, x.value if isinstance(x, ast.Starred) else x,
+                                        kind, node)
             return out
         self.bad(t, "target is not a name or a tuple of names")
 
     def func_values(self, e, fr):
         """dotted external functions an expression may evaluate to (None: not a function value)"""
         d = _dotted(e)
-        if d and d.split(".")[0] in self.module_names and d.split(".")[0] not in fr.names:
+        if d and d.split(".")[0] in fr.ctx.module_names and not fr.has(d.split(".")[0]):
             return {d}
         if isinstance(e, ast.Name) and e.id in fr.funcvals:
             return set(fr.funcvals[e.id])
@@ -701,7 +892,7 @@ class MethodTranslator:
             if aug:
                 # x += ..: in place for arrays / Series
                 if t.id not in fr.names:
-                    self.bad(s, "augmented assignment to an unbound name")
+                    self.bad(s, "augmented assignment to a name that is not a local")
                 return [("write", fr.names[t.id], self.fn_(_u(s)[:70]))]
             self.note_value(fr, t.id, getattr(s, "value", None))
             return self.bind(fr, t.id, kind, s.value)
@@ -717,9 +908,8 @@ class MethodTranslator:
         if isinstance(t, (ast.Tuple, ast.List)) and not aug:
             out = []
             for x in t.elts:
-                if isinstance(x, ast.Starred):
-                    self.bad(s, "starred target")
-                out += self.assign_target(x, kind, s, fr, aug=False)
+                out += self.assign_target(x.value if isinstance(x, ast.Starred) else x, kind, s,
+                                          fr, aug=False)
             return out
         self.bad(s, "assignment target not understood")
 
@@ -730,12 +920,7 @@ class MethodTranslator:
         params = [p.arg for p in a.args]
         if not params or params[0] != "self":
             self.bad(self.fn, "not a method")
-        if any(isinstance(n, (ast.FunctionDef, ast.ClassDef, ast.While, ast.Try, ast.With,
-                              ast.Global, ast.Nonlocal, ast.Delete, ast.Yield, ast.YieldFrom,
-                              ast.Await, ast.NamedExpr, ast.Starred))
-               for n in ast.walk(self.fn) if n is not self.fn):
-            self.bad(self.fn, "nested def / while / try / with / global / del / yield / walrus")
-        fr = Frame("", 0)
+        fr = Frame("", 0, self.ctx)
         for p in params[1:]:
             self.newvar(fr, p)            # every argument starts as the caller's object
         fr.retvar = self.newvar(fr, "<return>")
@@ -789,6 +974,7 @@ def extract(repo):
     """[{name, file, cls, method, self_ok, nvars, ret, body(tuples), vars, conds, fns, cnts}]"""
     out = []
     parsed = {}
+    ModCtx._cache.clear()
     for rel, cls, meth, self_ok in TARGETS:
         path = os.path.join(repo, rel)
         if not os.path.exists(path):
@@ -800,7 +986,7 @@ def extract(repo):
         c, fn = _find(mod, cls, meth)
         if fn is None:
             raise Unsupported("%s: %s.%s not found" % (rel, cls, meth))
-        mt = MethodTranslator(rel, mod, c, fn, self_ok)
+        mt = MethodTranslator(rel, mod, c, fn, self_ok, repo=repo)
         body, ret = mt.translate()
         out.append({"name": "%s.%s" % (cls, meth), "file": rel, "cls": cls, "method": meth,
                     "self_ok": self_ok, "nvars": len(mt.vars), "ret": ret, "body": body,
